@@ -69,6 +69,10 @@ EXPLANATION += (
     ' Round 9: aggregated vote totals kept in a chosen integer type are sized from a sum of the summands (R-CAP/sum-capacity, rule of C02).'
 )
 
+EXPLANATION += (
+    ' Round 11: the election is asked for exactly n_runners_up + 1 candidates (R-PROV/runners-up-as-requested); no numeric setting is defaulted with `or <number>` (R-IDIOM/falsy-numeric-default).'
+)
+
 RULE_TEXT = (
     "one obligation per arithmetic relation (quotient, divisor, slice "
     "bound, constant, loop shape); non-trivial when the construct exists")
